@@ -1478,9 +1478,33 @@ def check_crosstab_merge(prog, rep, m, entry):
     # key-wise sum over all keys of every further block
     ok = False
     B = f.params[0]
-    first = any(isinstance(x, ast.Assign) and norm(x.value).replace(' ', '') == '%s[0]' % B for x in f.own_nodes())
+    # names that stand for a call-free expression (single assignment, also pairwise `a, b = B[0], B[1:]`) read as that expression
+    import copy as _copy0
+    stores_ = {}
+    for x in f.own_nodes():
+        if isinstance(x, ast.Name) and isinstance(x.ctx, ast.Store):
+            stores_[x.id] = stores_.get(x.id, 0) + 1
+    al_ = {}
+    for x in f.own_nodes():
+        if isinstance(x, ast.Assign) and len(x.targets) == 1:
+            t0, v0 = x.targets[0], x.value
+            pairs_ = [(t0, v0)] if isinstance(t0, ast.Name) else (
+                list(zip(t0.elts, v0.elts)) if isinstance(t0, ast.Tuple) and isinstance(v0, ast.Tuple) and len(t0.elts) == len(v0.elts) else [])
+            for t_, v_ in pairs_:
+                if isinstance(t_, ast.Name) and stores_.get(t_.id) == 1 and t_.id not in f.params and \
+                        not any(isinstance(z, ast.Call) for z in ast.walk(v_)):
+                    al_[t_.id] = v_
+
+    def rs_(e, depth=0):
+        class _S(ast.NodeTransformer):
+            def visit_Name(self, n_):
+                if isinstance(n_.ctx, ast.Load) and n_.id in al_ and depth < 4:
+                    return rs_(_copy0.deepcopy(al_[n_.id]), depth + 1)
+                return n_
+        return _S().visit(_copy0.deepcopy(e))
+    first = any(isinstance(x, ast.Assign) and norm(rs_(x.value)).replace(' ', '') == '%s[0]' % B for x in f.own_nodes())
     for lp in [x for x in f.own_nodes() if isinstance(x, ast.For)]:
-        it = norm(lp.iter).replace(' ', '')
+        it = norm(rs_(lp.iter)).replace(' ', '')
         if it == 'range(1,len(%s))' % B and isinstance(lp.target, ast.Name):
             blk = '%s[%s]' % (B, lp.target.id)
         elif it == '%s[1:]' % B and isinstance(lp.target, ast.Name):
@@ -1563,8 +1587,11 @@ def check_crosstab_merge(prog, rep, m, entry):
         # the total may be read through a local alias of <table>[TOTAL_COUNT]
         alias = {}
         for x in g.own_nodes():
-            if isinstance(x, ast.Assign) and isinstance(x.targets[0], ast.Name) and norm(x.value).replace(' ', '').endswith('[TOTAL_COUNT]'):
-                alias[x.targets[0].id] = norm(x.value).replace(' ', '')
+            v_ = x.value if isinstance(x, ast.Assign) else None
+            if isinstance(v_, ast.Call) and isinstance(v_.func, ast.Attribute) and v_.func.attr == 'astype':
+                v_ = v_.func.value           # the total column under a (float) cast: the same counts
+            if isinstance(x, ast.Assign) and isinstance(x.targets[0], ast.Name) and norm(v_).replace(' ', '').endswith('[TOTAL_COUNT]'):
+                alias[x.targets[0].id] = norm(v_).replace(' ', '')
         for x in g.own_nodes():
             if isinstance(x, ast.Assign) and isinstance(x.value, ast.BinOp) and isinstance(x.value.op, ast.Mult) and \
                     const(x.value.right) == 100 and isinstance(x.value.left, ast.BinOp) and isinstance(x.value.left.op, ast.Div):
